@@ -284,21 +284,34 @@ def _mk_numpy():
             return o['np.rand'](*dims)
         return _floats(r, dims if dims else None, 'np.random.rand')
 
+    def _bshape(size, *params):
+        if size is not None:
+            return _shape_count(size)
+        shape = _np.broadcast(*[_np.asarray(p) for p in params]).shape
+        n = 1
+        for d in shape:
+            n *= d
+        return (shape if shape != () else None), n
+
     def uniform(low=0.0, high=1.0, size=None):
         r = _ACTIVE
         if r is None:
             return o['np.uniform'](low, high, size)
-        return low + (high - low) * _floats(r, size, 'np.random.uniform')
+        shape, n = _bshape(size, low, high)
+        u = [_u01(r, 'np.random.uniform') for _ in range(n)]
+        if shape is None:
+            return low + (high - low) * u[0]
+        return _np.asarray(low) + (_np.asarray(high) - _np.asarray(low)) * _np.array(u, dtype=float).reshape(shape)
 
     def normal(loc=0.0, scale=1.0, size=None):
         r = _ACTIVE
         if r is None:
             return o['np.normal'](loc, scale, size)
-        shape, n = _shape_count(size)
-        out = [loc + scale * _norm(r, 'np.random.normal') for _ in range(n)]
+        shape, n = _bshape(size, loc, scale)
+        z = [_norm(r, 'np.random.normal') for _ in range(n)]
         if shape is None:
-            return float(out[0])
-        return _np.array(out, dtype=float).reshape(shape)
+            return float(loc + scale * z[0])
+        return _np.asarray(loc, dtype=float) + _np.asarray(scale, dtype=float) * _np.array(z, dtype=float).reshape(shape)
 
     def randn(*dims):
         r = _ACTIVE
